@@ -122,10 +122,10 @@ theorem jl_to_J (t : Table) (F : Finset Pid) (W : Votes) (hnd : (ids t).Nodup) (
   · exact Or.inr (ql_to_Q t F W hnd (r - 1) .commit [] h)
 
 
-/-! ### honest executions -/
+/-! ### failure-free executions -/
 
-/-- one honest participant's execution of the instance model -/
-structure HonestRun (W : Votes) (t : Table) (p : Pid) where
+/-- an execution of the instance model in which no call reported an error -/
+structure CleanRun (W : Votes) (t : Table) (p : Pid) where
   cfg : Cfg
   input : Chain
   ops : List Op
@@ -171,7 +171,7 @@ theorem evs_bc' (es : List Eff) :
 
 variable {W : Votes} {t : Table}
 
-theorem HonestRun.opOk {p : Pid} (hr : HonestRun W t p) : ∀ op ∈ hr.ops, OpOk op := by
+theorem CleanRun.opOk {p : Pid} (hr : CleanRun W t p) : ∀ op ∈ hr.ops, OpOk op := by
   intro op hop
   have := hr.valid op hop
   cases op with
@@ -180,7 +180,7 @@ theorem HonestRun.opOk {p : Pid} (hr : HonestRun W t p) : ∀ op ∈ hr.ops, OpO
   | alarm _ => trivial
 
 /-- one vote per slot -/
-theorem HonestRun.one_vote {p : Pid} (hr : HonestRun W t p) (r : Nat) (ph : Instance.Phase) (x y : Chain)
+theorem CleanRun.one_vote {p : Pid} (hr : CleanRun W t p) (r : Nat) (ph : Instance.Phase) (x y : Chain)
     (hx : W p r ph x) (hy : W p r ph y) : x = y := by
   obtain ⟨tk1, j1, h1⟩ := (hr.own r ph x).1 hx
   obtain ⟨tk2, j2, h2⟩ := (hr.own r ph y).1 hy
@@ -193,13 +193,200 @@ theorem HonestRun.one_vote {p : Pid} (hr : HonestRun W t p) (r : Nat) (ph : Inst
   cases this; rfl
 
 /-- every broadcast of an honest run is guarded -/
-theorem HonestRun.guarded {p : Pid} (hr : HonestRun W t p) (hT : 0 < t.total) :
+theorem CleanRun.guarded {p : Pid} (hr : CleanRun W t p) (hT : 0 < t.total) :
     Guarded W t p hr.input (run (init hr.cfg t hr.input) hr.ops).2 := by
   have hown : OwnIn W p (runFrom (init hr.cfg t hr.input) hr.ops).2 := by
     intro r ph v tk j hm
     exact (hr.own r ph v).2 ⟨tk, j, hm⟩
   exact (runFrom_guarded (W := W) (me := p) hr.ops (GInv_init W p hr.cfg t hr.input hr.inputNe hT) (DQ_init _ _ _)
     hr.valid hown hr.nofail).1
+
+/-- the decision reported by a failure-free run is backed by a strong DECIDE quorum in the world -/
+theorem CleanRun.decision_Q {p : Pid} (hr : CleanRun W t p) (F : Finset Pid) (hnd : (ids t).Nodup) (d : Just)
+    (hd : (run (init hr.cfg t hr.input) hr.ops).1.termination = some d) : (world t F W).Q .decide 0 d.value := by
+  have hops : ∀ op ∈ hr.ops, OpValid (fun x c => W x 0 .decide c) (init hr.cfg t hr.input).tbl op := by
+    intro op hop
+    have hv := hr.valid op hop
+    cases op with
+    | recv now m =>
+      refine ⟨MsgValid.msgOk (W := W) hv, hv.2.1, fun hph => ?_⟩
+      have hw := hv.1
+      have hr0 := MsgValid.msgOk (W := W) hv hph
+      rw [hph, hr0] at hw; exact hw
+    | start _ => trivial
+    | alarm _ => trivial
+  have hdec := runFrom_decinv (V := fun x c => W x 0 .decide c) (init hr.cfg t hr.input) hr.ops (DecInv_init _ _ _) hops
+  have htb := runFrom_tbl (init hr.cfg t hr.input) hr.ops
+  have hok := hdec.2 d hd
+  rw [htb] at hok
+  exact ql_to_Q t F W hnd 0 .decide d.value ⟨d.signers, hok.increasing, hok.members, hok.strong, hok.signed⟩
+
+
+
+/-! ### refusals at the door
+
+`Receive` refuses a message for another instance, with other supplemental data or on another base, and any
+message after termination, by returning an error and leaving the instance untouched. These are the only errors
+an honest execution may report. -/
+
+def refused (s : State) : Op → Bool
+  | .recv _ m => s.phase == .terminated || (match s.recvPre m with | .reject _ => true | _ => false)
+  | _ => false
+
+theorem step_refused {s : State} {op : Op} (h : refused s op = true) : ∃ k, step s op = (s, [.err k]) := by
+  cases op with
+  | recv now m =>
+    simp only [refused, Bool.or_eq_true] at h
+    unfold step
+    by_cases ht : (s.phase == .terminated) = true
+    · exact ⟨.afterTermination, by simp [ht]⟩
+    · simp only [ht, Bool.false_eq_true, if_false]
+      rcases h with h | h
+      · exact absurd h ht
+      · unfold State.receiveOne
+        cases hp : s.recvPre m with
+        | reject k => exact ⟨k, by simp⟩
+        | drop => rw [hp] at h; cases h
+        | accept => rw [hp] at h; cases h
+  | start _ => cases h
+  | alarm _ => cases h
+
+/-- every call either is a refusal or reports no error -/
+def okRun : State → List Op → Bool
+  | _, [] => true
+  | s, op :: ops => (refused s op || !hasFailure (step s op).2) && okRun (step s op).1 ops
+
+/-- a message of another instance or with other supplemental data -/
+def foreign : Op → Bool
+  | .recv _ m => !m.instOk || !m.suppOk
+  | _ => false
+
+theorem foreign_refused (s : State) (op : Op) (h : foreign op = true) : refused s op = true := by
+  cases op with
+  | recv now m =>
+    simp only [foreign, Bool.or_eq_true, Bool.not_eq_true'] at h
+    simp only [refused, Bool.or_eq_true]
+    right
+    unfold State.recvPre
+    rcases h with h | h
+    · simp [h]
+    · cases hi : m.instOk <;> simp [h]
+  | start _ => cases h
+  | alarm _ => cases h
+
+theorem okRun_of_nofail (s : State) (ops : List Op) (h : hasFailure (runFrom s ops).2 = false) : okRun s ops = true := by
+  induction ops generalizing s with
+  | nil => rfl
+  | cons op ops ih =>
+    rw [runFrom_cons] at h
+    simp only [hasFailure_append, Bool.or_eq_false_iff] at h
+    simp only [okRun, Bool.and_eq_true, Bool.or_eq_true, Bool.not_eq_true']
+    exact ⟨Or.inr h.1, ih _ h.2⟩
+
+/-- dropping the refused calls of an honest execution leaves a failure-free execution with the same final
+state and the same effects other than the refusals' errors -/
+theorem clean_run (P : Op → Prop) (s : State) (ops : List Op) (h : okRun s ops = true)
+    (hP : ∀ op ∈ ops, foreign op = true ∨ P op) :
+    ∃ ops', (∀ op ∈ ops', P op) ∧ hasFailure (runFrom s ops').2 = false ∧
+      (runFrom s ops').1 = (runFrom s ops).1 ∧
+      ∀ e, (∀ k, e ≠ Eff.err k) → (e ∈ (runFrom s ops').2 ↔ e ∈ (runFrom s ops).2) := by
+  induction ops generalizing s with
+  | nil => exact ⟨[], by simp, by simp [runFrom], rfl, fun _ _ => Iff.rfl⟩
+  | cons op ops ih =>
+    simp only [okRun, Bool.and_eq_true, Bool.or_eq_true, Bool.not_eq_true'] at h
+    obtain ⟨hop, hrest⟩ := h
+    have hP' : ∀ o ∈ ops, foreign o = true ∨ P o := fun o ho => hP o (List.mem_cons_of_mem _ ho)
+    by_cases hr : refused s op = true
+    · obtain ⟨k, hk⟩ := step_refused hr
+      rw [hk] at hrest
+      obtain ⟨ops', h1, h2, h3, h4⟩ := ih s hrest hP'
+      refine ⟨ops', h1, h2, ?_, ?_⟩
+      · rw [runFrom_cons, hk]; exact h3
+      · intro e he
+        rw [runFrom_cons, hk, h4 e he]
+        simp only [List.mem_append, List.mem_singleton]
+        constructor
+        · exact Or.inr
+        · rintro (h' | h')
+          · exact absurd h' (he k)
+          · exact h'
+    · have hnf : hasFailure (step s op).2 = false := by
+        rcases hop with h' | h'
+        · exact absurd h' hr
+        · exact h'
+      obtain ⟨ops', h1, h2, h3, h4⟩ := ih _ hrest hP'
+      refine ⟨op :: ops', ?_, ?_, ?_, ?_⟩
+      · intro o ho
+        rcases List.mem_cons.1 ho with rfl | ho
+        · rcases hP o List.mem_cons_self with hf | hp
+          · exact absurd (foreign_refused s o hf) hr
+          · exact hp
+        · exact h1 o ho
+      · rw [runFrom_cons]; simp only [hasFailure_append, hnf, h2, Bool.or_self]
+      · rw [runFrom_cons, runFrom_cons]; exact h3
+      · intro e he
+        rw [runFrom_cons, runFrom_cons]
+        simp only [List.mem_append, h4 e he]
+
+/-! ### honest executions -/
+
+/-- one honest participant's execution of the instance model: any sequence of `Start`, alarms and deliveries -/
+structure HonestRun (W : Votes) (t : Table) (p : Pid) where
+  cfg : Cfg
+  input : Chain
+  ops : List Op
+  inputNe : input ≠ []
+  /-- every delivered message of this instance passed validation (C05: `validMsg_MsgValid`): the vote and the
+  votes its justification aggregates exist in `W`; messages of other instances / supplemental data are refused -/
+  valid : ∀ op ∈ ops, foreign op = true ∨ OpValidG W t op
+  /-- no call reported an error other than a refusal at the door (the C07 oracle on the implementation) -/
+  ok : okRun (init cfg t input) ops = true
+  /-- unforgeability: the votes of `p` in existence are exactly those it broadcast -/
+  own : ∀ r ph v, W p r ph v ↔ ∃ tk j, Eff.broadcast r ph v tk j ∈ (run (init cfg t input) ops).2
+
+theorem HonestRun.exists_clean {p : Pid} (hr : HonestRun W t p) :
+    ∃ ops', (∀ op ∈ ops', OpValidG W t op) ∧ hasFailure (runFrom (init hr.cfg t hr.input) ops').2 = false ∧
+      (runFrom (init hr.cfg t hr.input) ops').1 = (runFrom (init hr.cfg t hr.input) hr.ops).1 ∧
+      ∀ e, (∀ k, e ≠ Eff.err k) → (e ∈ (runFrom (init hr.cfg t hr.input) ops').2 ↔ e ∈ (runFrom (init hr.cfg t hr.input) hr.ops).2) :=
+  clean_run (OpValidG W t) _ _ hr.ok hr.valid
+
+/-- the failure-free execution obtained by dropping the refused deliveries -/
+noncomputable def HonestRun.clean {p : Pid} (hr : HonestRun W t p) : CleanRun W t p where
+  cfg := hr.cfg
+  input := hr.input
+  ops := Classical.choose hr.exists_clean
+  inputNe := hr.inputNe
+  valid := (Classical.choose_spec hr.exists_clean).1
+  nofail := (Classical.choose_spec hr.exists_clean).2.1
+  own := by
+    intro r ph v
+    rw [hr.own r ph v]
+    constructor
+    · rintro ⟨tk, j, hm⟩
+      exact ⟨tk, j, ((Classical.choose_spec hr.exists_clean).2.2.2 _ (fun k => by simp)).2 hm⟩
+    · rintro ⟨tk, j, hm⟩
+      exact ⟨tk, j, ((Classical.choose_spec hr.exists_clean).2.2.2 _ (fun k => by simp)).1 hm⟩
+
+theorem HonestRun.clean_state {p : Pid} (hr : HonestRun W t p) :
+    (run (init hr.clean.cfg t hr.clean.input) hr.clean.ops).1 = (run (init hr.cfg t hr.input) hr.ops).1 :=
+  (Classical.choose_spec hr.exists_clean).2.2.1
+
+theorem HonestRun.clean_bc {p : Pid} (hr : HonestRun W t p) (r : Nat) (ph : Instance.Phase) (v : Chain) (tk : Bool) (j : Option Just) :
+    Eff.broadcast r ph v tk j ∈ (run (init hr.clean.cfg t hr.clean.input) hr.clean.ops).2 ↔
+      Eff.broadcast r ph v tk j ∈ (run (init hr.cfg t hr.input) hr.ops).2 :=
+  (Classical.choose_spec hr.exists_clean).2.2.2 _ (fun k => by simp)
+
+theorem HonestRun.one_vote {p : Pid} (hr : HonestRun W t p) (r : Nat) (ph : Instance.Phase) (x y : Chain)
+    (hx : W p r ph x) (hy : W p r ph y) : x = y := hr.clean.one_vote r ph x y hx hy
+
+theorem HonestRun.guarded {p : Pid} (hr : HonestRun W t p) (hT : 0 < t.total) :
+    Guarded W t p hr.input (run (init hr.cfg t hr.input) hr.ops).2 := by
+  intro r ph v tk j hm
+  exact hr.clean.guarded hT r ph v tk j ((hr.clean_bc r ph v tk j).2 hm)
+
+theorem HonestRun.decision_Q {p : Pid} (hr : HonestRun W t p) (F : Finset Pid) (hnd : (ids t).Nodup) (d : Just)
+    (hd : (run (init hr.cfg t hr.input) hr.ops).1.termination = some d) : (world t F W).Q .decide 0 d.value :=
+  hr.clean.decision_Q F hnd d (by rw [hr.clean_state]; exact hd)
 
 /-- **The honest rules hold of the executable model.** -/
 theorem rules_of_runs (t : Table) (F : Finset Pid) (W : Votes) (hnd : (ids t).Nodup) (hT : 0 < t.total)
@@ -239,27 +426,6 @@ theorem rules_of_runs (t : Table) (F : Finset Pid) (W : Votes) (hnd : (ids t).No
       obtain ⟨hne, r', hq⟩ := hg
       exact ⟨hne, r', ql_to_Q t F W hnd r' .commit x hq⟩
     · exact absurd hx (hnon p hc _ _ _)
-
-/-- the decision reported by an honest run is backed by a strong DECIDE quorum in the world -/
-theorem HonestRun.decision_Q {p : Pid} (hr : HonestRun W t p) (F : Finset Pid) (hnd : (ids t).Nodup) (d : Just)
-    (hd : (run (init hr.cfg t hr.input) hr.ops).1.termination = some d) : (world t F W).Q .decide 0 d.value := by
-  have hops : ∀ op ∈ hr.ops, OpValid (fun x c => W x 0 .decide c) (init hr.cfg t hr.input).tbl op := by
-    intro op hop
-    have hv := hr.valid op hop
-    cases op with
-    | recv now m =>
-      refine ⟨MsgValid.msgOk (W := W) hv, hv.2.1, fun hph => ?_⟩
-      have hw := hv.1
-      have hr0 := MsgValid.msgOk (W := W) hv hph
-      rw [hph, hr0] at hw; exact hw
-    | start _ => trivial
-    | alarm _ => trivial
-  have hdec := runFrom_decinv (V := fun x c => W x 0 .decide c) (init hr.cfg t hr.input) hr.ops (DecInv_init _ _ _) hops
-  have htb := runFrom_tbl (init hr.cfg t hr.input) hr.ops
-  have hok := hdec.2 d hd
-  rw [htb] at hok
-  exact ql_to_Q t F W hnd 0 .decide d.value ⟨d.signers, hok.increasing, hok.members, hok.strong, hok.signed⟩
-
 
 /-- the standing assumptions about one instance of the network of model participants -/
 structure Network (t : Table) (F : Finset Pid) (W : Votes) where
